@@ -195,7 +195,7 @@ def build(hcrate=None):
         pid = "C" + mod[1:]
         o = dict(id=f"{fam[1]}.{bounds_from_name(name)}", harness=f"{mod}::{name}", what=fam[2], bounds=bounds_from_name(name),
                  functions=fam[3], tier="quick" if name in QUICK else "thorough", timeout=TIMEOUTS.get(name, 1500),
-                 mem_gb=MEM.get(name, 12), feature=mod)
+                 mem_gb=MEM.get(name, 10), feature=mod)
         if name.startswith("c13_v1_"):
             o["flags"] = []  # memory-safety checks ON for the unsafe AVX2 routine
         if name.startswith("c12_m1c_") or name.startswith("c12_m5_"):
